@@ -96,6 +96,11 @@ def main() -> int:
     prog = Program(a.repo, use_mypy=getattr(mod, 'NEEDS_TYPES', True))
     ctx = core.Ctx(a.prop, a.tier, prog, seed)
     ctx.explanation = mod.EXPLANATION
+    # what the canonicalisation did to the tree that was analysed (empty on the pinned tree)
+    ctx.extra['canonicalisation'] = {'normaliser': list(prog.normalized)[:200], 'expanded_helpers': list(prog.expanded)[:200]}
+    for line in prog.normalized:
+        if 'failed and was skipped' in line:
+            print(f'NORMALISER-WARNING {line}')
     mod.run(ctx)
     known = {k['key'] for k in core.load_known() if k.get('status') == 'known' and a.prop in k.get('properties', [])}
     if not [v for v in ctx.violations if v['key'] not in known]:
